@@ -53,16 +53,17 @@ WAVE2 = {  # /tmp/seed2/<dir>/SEED/<k> -> (property, seeded name)
 }
 
 if __name__ == "__main__":
-    if sys.argv[1] == "wave3":
+    if sys.argv[1] in ("wave3", "wave4", "wave5", "wave6", "wave7"):
         g = sys.argv[2]
-        base = f"/tmp/seed3/{g}/SEED"
+        wv = sys.argv[1][-1]
+        base = f"/tmp/seed{wv}/{g}/SEED"
         for k in sorted(int(x) for x in os.listdir(base) if x.isdigit()):
             pf = os.path.join(base, str(k), "PROPERTY")
             if not os.path.exists(pf):
                 print("no PROPERTY file for", k)
                 continue
             prop = open(pf).read().strip()
-            marker = f"{g}/{k}"
+            marker = f"{g}/{k}" if wv == "3" else f"w{wv}/{g}/{k}"
             existing = [n for n in os.listdir("/verif/seeded") if n.startswith(prop + "-")]
             done = None
             for n in existing:
@@ -72,7 +73,7 @@ if __name__ == "__main__":
             name = done or f"{prop}-{max([int(n.split('-')[1]) for n in existing] + [0]) + 1}"
             r = imp(prop, k, src=os.path.join(base, str(k)), name=name)
             mp = f"/verif/seeded/{name}/meta.json"
-            m = json.load(open(mp)); m["wave3_source"] = marker; json.dump(m, open(mp, "w"), indent=1)
+            m = json.load(open(mp)); m["wave3_source"] = marker; m["wave"] = int(wv); json.dump(m, open(mp, "w"), indent=1)
             print(r)
         sys.exit(0)
     if sys.argv[1] == "wave2":
